@@ -231,9 +231,65 @@ func (engine) Generate(r *lib.Rng, tier string, i int) any {
 			}
 		}
 	}
+	if r.Chance(7, 100) {
+		g.sharedItem(c.G)
+	}
 	c.CancelBefore = r.Chance(4, 100)
 	if (c.Par == "collect" || c.Par == "transform") && r.Chance(6, 100) {
 		c.InErr = g.errSpec()
 	}
 	return c
+}
+
+func hasBeh(g *Graph, beh string) bool {
+	for _, st := range g.Stages {
+		for _, n := range st {
+			if n.Beh == beh || (n.Sub != nil && hasBeh(n.Sub, beh)) {
+				return true
+			}
+		}
+	}
+	return false
+}
+
+// sharedItem rewrites the top graph so that ONE error value reaches several nodes: a stage
+// becomes a single stream-native node emitting an error item that is (mostly) itself the error
+// of a nested run — a path-carrying wrapper — and the next stage, two or three nodes wide, is
+// made of consumers that hand the item back as their own error (collect-native lambdas, directly
+// or inside sub-graphs).  The stream is copied for them, so all of them hold the same error value.
+func (g *gen) sharedItem(top *Graph) {
+	r := g.r
+	if top.Loop || len(top.Stages) < 2 || hasBeh(top, "cancel") || hasBeh(top, "convpanic") {
+		return
+	}
+	s := r.Intn(len(top.Stages) - 1)
+	e := g.errSpec()
+	e.Nested = r.Chance(80, 100)
+	if r.Chance(60, 100) {
+		e.Wraps, e.Typed, e.TCode = 0, false, 0
+	}
+	top.Stages[s] = []*Node{{Key: fmt.Sprintf("n%da", s), Kind: "lam", Flav: "s", Beh: "item", Err: e}}
+	next := top.Stages[s+1]
+	for len(next) < 2 || (len(next) < 3 && r.Chance(40, 100)) {
+		k := fmt.Sprintf("n%d%c", s+1, 'a'+len(next))
+		n := &Node{Key: k, Kind: "lam", Flav: "c", Beh: "ok"}
+		if r.Chance(50, 100) {
+			inner := &Node{Key: "n0a", Kind: "lam", Flav: "c", Beh: "ok"}
+			n = &Node{Key: k, Kind: "sub", Sub: &Graph{Dag: r.Chance(30, 100), Stages: [][]*Node{{inner}}}}
+		}
+		next = append(next, n)
+	}
+	var first func(gr *Graph)
+	first = func(gr *Graph) { // the nodes that read the graph's input
+		for _, n := range gr.Stages[0] {
+			switch {
+			case n.Kind == "sub":
+				first(n.Sub)
+			case n.Kind == "lam" && (n.Beh == "ok" || n.Beh == "fail") && r.Chance(75, 100):
+				n.Flav = "c"
+			}
+		}
+	}
+	first(&Graph{Stages: [][]*Node{next}})
+	top.Stages[s+1] = next
 }
